@@ -147,8 +147,8 @@ def check(run, ctx):
         owner = next((f_ for f_ in repo.funcs.values() if f_.parent is None and any(x is r.get("method_count") for x in ast.walk(f_.node))), None)
         mc = _xl4(owner.node, r["method_count"]) if owner is not None and "method_count" in r else None
         lc = _xl4(owner.node, r["loc"]) if owner is not None and "loc" in r else None
-        # whatever the locals are called: the fields are the results of this language's method counter and LOC counter
-        if isinstance(mc, ast.Call) and "method" in (call_name(mc) or "") and isinstance(lc, ast.Call) and "loc" in (call_name(lc) or "").lower():
+        # whatever the locals and the counters are called: the two fields are the results of two different counting calls
+        if isinstance(mc, ast.Call) and isinstance(lc, ast.Call) and call_name(mc) != call_name(lc):
             run.ok(T4, f"{lang} record values", f"method_count = {call_name(mc)}(...), loc = {call_name(lc)}(...)")
         else:
             run.finding(T4, f"{lang} record", f"values:{src.get('method_count')}/{src.get('loc')}", "record fields are not the computed counts", "")
